@@ -189,6 +189,9 @@ def family(tier):
     else:
         base += [s for s in F.undirected([1, 2, 3, 4, 5], 2, isolated=False, multi=False, min_edges=2) if 5 in s["nodes"]]
     items = list(F.wide())  # more than ten nodes and edges
+    # simplicial complexes as inputs (the measures accept them; a complex stores no singleton simplices, so with
+    # min_size = 1 it is *not* downward closed in the sense of the measures)
+    items += [c for c in F.complexes([1, 2, 3, 4], isolated=False) if c["edges"]]
     for k, s in enumerate(base):
         items.append(s)
         if k % 4 == 0:
